@@ -148,7 +148,7 @@ func fieldNameOf(t types.Type, idx int) string {
 		t = p.Elem()
 	}
 	if st, ok := t.Underlying().(*types.Struct); ok && idx < st.NumFields() {
-		return st.Field(idx).Name()
+		return core.VarName(st.Field(idx))
 	}
 	return fmt.Sprint(idx)
 }
@@ -180,7 +180,7 @@ func R11() Rule {
 		for _, fn := range c.P.SrcFuncs(core.PkgGcsemu) {
 			// skip the store implementations themselves
 			if r := core.Root(fn); r.Signature.Recv() != nil {
-				if n := core.NamedOf(r.Signature.Recv().Type()); n != nil && (n.Obj().Name() == "memstore" || n.Obj().Name() == "filestore") {
+				if n := core.NamedOf(r.Signature.Recv().Type()); n != nil && (core.TName(n) == "memstore" || core.TName(n) == "filestore") {
 					continue
 				}
 			}
